@@ -37,6 +37,10 @@ func main() {
 		&lib.Prop{ID: "C11", Part: "operator-watermarks", Level: "exploration", NCases: n(50, 2500), Assumptions: opAssume,
 			Rule: "[2..4 senders, watermark-heavy] " + scriptRule,
 			Run:  func(c *lib.Ctx) { runScript(c, flavour{prop: "C11", mutations: 3, timers: 8, watermarks: 40, manySenders: true, tinyCache: true}) }},
+		&lib.Prop{ID: "C02", Part: "alignment", Level: "exploration", NCases: n(80, 4000),
+			Assumptions: append([]string{"the job never starts checkpoint N+1 before N completed, so barriers of two checkpoints never overlap", "the verif hook in alignSender only reports that a sender parked / was released; a sender that is NOT held is detected by its HandleEvent returning before the last barrier"}, opAssume[1:]...),
+			Rule: "[2..4 senders; 4 of 5 checkpoints are concurrent: after its barrier a sender immediately tries to deliver its next event (several senders with keyed events, or one sender with a watermark whose timers are due) from its own goroutine, exactly like the embedded client] " + scriptRule + "; extra oracle: an aligned sender must park (hook) and not return until the last barrier was handled; the acknowledgement must come after exactly the handler invocations of the pre-barrier events (cut position); the DKV checkpoint named in the ack read back == shadow frozen at the ack; released events reach the handler after the cut in any order among themselves",
+			Run:  func(c *lib.Ctx) { runScript(c, flavour{prop: "C02", mutations: 8, timers: 6, watermarks: 14, manySenders: true, concurrent: true}) }},
 	)
 }
 
